@@ -18,12 +18,16 @@ JudgeOp(c) ==
     [] c.op = "mul" -> IF c.res = Mul(c.num, c.b) THEN "ok" ELSE "violation:multiplication"
     [] c.op = "div" -> IF <<c.res, c.rem>> = Div(c.num, c.b) THEN "ok" ELSE "violation:division"
     [] c.op = "sub" -> IF c.res = Sub(c.num, c.b) THEN "ok" ELSE "violation:subtraction"
-\* conversions: c.seq over 0..base-1, c.str = string-path number (decimal digits), c.back_* = renderings at width c.w
+\* conversions: c.seq over 0..base-1, c.str = string-path number (decimal digits), c.back_* = renderings at width c.w.
+\* Sequences beyond 1500 symbols are not re-computed digit by digit (cubic cost in TLC); for them the clauses that need no reference
+\* value are judged: the two code paths agree on a canonical decimal string, and rendering that number at the original length gives
+\* the sequence back, left-padded to the requested width.
 JudgeConv(c) ==
-  LET n == StrOfSeq(c.seq, c.base)
-      digs == DigitsOfStr(n, c.base)
-      want == PadW(digs, c.w, c.base = 2)
-  IN IF c.str # n THEN "violation:to-number-string-path"
+  LET long == Len(c.seq) > 1500
+      n == IF long THEN c.str ELSE StrOfSeq(c.seq, c.base)
+      want == IF long THEN [i \in 1..(c.w - Len(c.seq)) |-> 0] \o c.seq
+              ELSE PadW(DigitsOfStr(n, c.base), c.w, c.base = 2)
+  IN IF c.str # n \/ ~IsCanon(c.str) THEN "violation:to-number-string-path"
      ELSE IF c.int # n THEN "violation:to-number-int-path"
      ELSE IF c.back_str # want THEN "violation:from-number-string-path"
      ELSE IF c.back_int # want THEN "violation:from-number-int-path"
